@@ -167,7 +167,8 @@ def do_run(prop, tier, seed):
     # 3. the generated search (and, for the checks that ask for it, the same search once more under unusual ambient settings)
     amb = None
     if getattr(mod, 'AMBIENT_PASS', False) and not _is_ambient_child() and os.environ.get('VERIF_NO_AMBIENT') != '1':
-        amb = start_ambient(prop, tier, ctx.seed)
+        # (the heavy history checks run their ambient pass at the quick tier's budgets also in the thorough tier)
+        amb = start_ambient(prop, tier if getattr(mod, 'AMBIENT_PASS', False) != 'quick' else 'quick', ctx.seed)
     try:
         mod.run(ctx)
     except BaseException:
